@@ -69,6 +69,7 @@ func (o *Out) Emit(c Case) {
 	defer o.mu.Unlock()
 	o.w.Write(b)
 	o.w.WriteByte('\n')
+	o.w.Flush() // a driver that crashes later must not lose the cases it has already produced
 	o.n++
 }
 
